@@ -106,7 +106,9 @@ Definition py_eq (a b : val) : bool :=
   | _, _ => false
   end.
 
-Definition lit_mem (v : val) (ls : list lit) : bool := existsb (fun l => py_eq v (lit_val l)) ls.
+(* is_literal_member: `type(val) is type(member) and val == member` (fix d000fe2; before, `val in members`
+   let True and 1.0 pass for Literal[1]) *)
+Definition lit_mem (v : val) (ls : list lit) : bool := existsb (fun l => val_eqb v (lit_val l)) ls.
 
 Definition is_str (v : val) : bool := match v with VStr _ => true | _ => false end.
 Definition is_none_ty (t : ty) : bool := match t with TNone => true | _ => false end.
@@ -168,16 +170,13 @@ Fixpoint union_loop (orig : option str) (v : val) (rs : list (ty * ares)) (vals 
 
 Definition uval_ok (u : uval) : bool := match u with UOk _ => true | UExc => false end.
 
-(* `if all(isinstance(v, Exception) for v in vals): raise ...; val = vals[-1]`.
-   vals[-1] is literally the last entry: after an orig_val fallback a later failing member leaves its
-   exception OBJECT there and that object becomes the value (Union[str, int] on a list read from
-   text); no type but Any accepts it afterwards, so validation rejects the parse. *)
-Definition exc_val : val := VOpaque [101; 120; 99]%N [].      (* "exc" *)
-
+(* `if all(isinstance(v, Exception) for v in vals): raise ...;
+    val = [v for v in vals if not isinstance(v, Exception)][-1]`   (fix ec37b24; before, `vals[-1]` could be
+   the exception OBJECT of a member that failed after an orig_val fallback) *)
 Definition union_result (vals : list uval) : ares :=
   match filter uval_ok vals with
   | [] => AErr ErrValue
-  | _ => match last vals UExc with UOk w => AOk w | UExc => AOk exc_val end
+  | oks => match last oks UExc with UOk w => AOk w | UExc => AErr ErrValue end
   end.
 
 Definition sort_members {B} (val_is_str : bool) (rs : list (ty * B)) : list (ty * B) :=
@@ -300,7 +299,9 @@ Definition lit_kinds (ls : list lit) (v : val) : list (ty * ares) :=
   ++ (if existsb (fun l => match l with LBool _ => true | _ => false end) ls then [(TBool, adapt_leaf LfBool v)] else [])
   ++ (if existsb (fun l => match l with LNone => true | _ => false end) ls then [(TNone, adapt_leaf LfNone v)] else []).
 
-(* ---- adapt_typehints (serialize = False, prev_val = None, append = False) ---------------------- *)
+(* ---- adapt_typehints (serialize = False, prev_val = None, append = False) ----------------------
+   List and dict values are copied before their items are adapted (fix ce28ec8), every other container
+   branch builds a new object: adaptation is a pure function of (type, value), as modelled here. *)
 Fixpoint adapt (orig : option str) (t : ty) (v : val) {struct t} : ares :=
   match t with
   | TStr => adapt_leaf LfStr v
@@ -509,53 +510,5 @@ Definition key_guard (dflt : val) (t : ty) (v0 : val) : bool :=
       end
   | _ => true
   end.
-
-
-(* ---- in-place adaptation --------------------------------------------------------------------------
-   adapt_typehints rewrites list and dict values IN PLACE (`val[n] = ...`), so a Union member that starts
-   on a container and then fails can leave converted elements behind for the next member
-   (Union[List[int], List[str]] rejects ['1', 'a']).  The pure model above does not thread that residue;
-   `may_residue` recognises (conservatively) the traversals where it could matter: some Union node has a
-   container-typed member that starts on the value (matching outer kind) and fails.  The judge compares
-   the model only when this is false for every value of the case; the spec is judged always. *)
-Definition starts (t : ty) (v : val) : bool :=
-  match t with
-  | TList _ | TTuple _ | TTupleVar _ | TSet _ => match seq_items v with Some _ => true | None => false end
-  | TDict _ _ => match v with VDict _ => true | _ => false end
-  | TUnion _ => true
-  | _ => false
-  end.
-
-Fixpoint exists2b {A B} (f : A -> B -> bool) (a : list A) (b : list B) : bool :=
-  match a, b with
-  | x :: a', y :: b' => f x y || exists2b f a' b'
-  | _, _ => false
-  end.
-
-Fixpoint may_residue (orig : option str) (t : ty) (v : val) {struct t} : bool :=
-  match t with
-  | TUnion ts =>
-      existsb (fun t1 => starts t1 v && negb (is_ok (adapt orig t1 v))) ts
-      || existsb (fun t1 => may_residue orig t1 v) ts
-  | TTuple ts =>
-      match seq_items v with
-      | Some l => exists2b (fun f x => f x) (map (fun t1 => may_residue orig t1) ts) l
-      | None => false
-      end
-  | TTupleVar t1 | TSet t1 | TList t1 =>
-      match seq_items v with
-      | Some l => existsb (may_residue orig t1) l
-      | None => false
-      end
-  | TDict _ t1 =>
-      match v with
-      | VDict d => existsb (fun kv => may_residue orig t1 (snd kv)) d
-      | _ => false
-      end
-  | _ => false
-  end.
-
-Definition key_may_residue (t : ty) (v0 : val) : bool :=
-  may_residue (orig_of v0) t (parsed_of v0) || may_residue None t v0.
 
 End Adapt.
